@@ -120,6 +120,10 @@ def run(plan):
             # the altered packet is not the awaited response but an extra one, drained by the next exchange
             dev.script = [{"post_mutated": plan["mutate"]}]
             authentic = 2
+            if plan.get("then_authentic") and not plan.get("pair"):
+                # the altered extra is followed by one more authentic copy: both wait in the queue, altered first
+                dev.script = [{"post_mutated": plan["mutate"], "then_authentic": True}]
+                authentic = 3
             if plan.get("pair"):
                 # response, an authentic second copy and the altered copy reach the client in the same instant:
                 # one drain sees [authentic, altered]
@@ -219,7 +223,7 @@ def run(plan):
         res.fail(f"liveness: {type(e).__name__}", str(e))
     res.take(w)
     res.add_fired(dev.fired)
-    res.key = (plan["reply"], repr(plan["mutate"]), bool(plan.get("warm")), bool(plan.get("as_extra")), bool(plan.get("pair")), bool(plan.get("after_drop")), plan["config"].get("version"), bool(plan.get("straddle")), bool(plan.get("authentic_after")), bool(plan.get("abandoned")))
+    res.key = (plan["reply"], repr(plan["mutate"]), bool(plan.get("warm")), bool(plan.get("as_extra")), bool(plan.get("pair")), bool(plan.get("after_drop")), plan["config"].get("version"), bool(plan.get("straddle")), bool(plan.get("authentic_after")), bool(plan.get("abandoned")), bool(plan.get("then_authentic")))
     res.nontrivial = delivered_changed[0]
     return res
 
@@ -269,7 +273,7 @@ def space(tier):
         v = BOUNDARY[j % len(BOUNDARY)]
         k = j // (len(BOUNDARY) * len(pos_index))
         return {"config": base, "reply": frame_for(L).hex(), "mutate": {"kind": "byte", "pos": p, "val": v},
-                "as_extra": k % 2 == 1, "warm": k % 4 == 2, "pair": k % 4 == 3, "after_drop": k % 4 == 0 and v in (0x00, 0xFF),
+                "as_extra": k % 2 == 1, "warm": k % 4 == 2, "pair": k % 4 == 3, "then_authentic": k % 4 == 1 and p % 2 == 0, "after_drop": k % 4 == 0 and v in (0x00, 0xFF),
                 "authentic_after": k % 4 == 0 and v in (0x01, 0x5A), "abandoned": k % 4 == 0 and v in (0xAA, 0x80)}
     sp.add("byte_subst_boundary_values", len(pos_index) * len(BOUNDARY) * 4, subst_boundary, exhaustive=True)
 
@@ -308,7 +312,8 @@ def space(tier):
         else:
             m = {"kind": "multi", "edits": [[rng.randrange(n), rng.randrange(1, 256)]]}
         return {"config": dict(base, device_id=rng.getrandbits(64)), "reply": rand_bytes(rng, L).hex(), "mutate": m,
-                "warm": rng.random() < 0.5, "as_extra": rng.random() < 0.25, "pair": rng.random() < 0.5,
+                "warm": rng.random() < 0.5, "as_extra": rng.random() < 0.25, "pair": rng.random() < 0.4,
+                "then_authentic": rng.random() < 0.5,
                 "after_drop": rng.random() < 0.25, "authentic_after": rng.random() < 0.2, "abandoned": rng.random() < 0.2}
     sp.add("random_packets", 3000 if tier == "quick" else 400_000, rnd)
     return sp
